@@ -253,4 +253,42 @@ theorem rebuilt_eq_written (c : Cfg) (q : BuiltPack) (hn : q.hdrNonce.length = 1
   unfold BuiltPack.rebuiltIndexPack BuiltPack.indexPack BuiltPack.file
   rw [finish_length _ hae.len _ hinv, h]
 
+/-! ### the indexer's files list every pack it was given -/
+
+theorem unmarked_append (a b : List IndexFile) : unmarked (a ++ b) = unmarked a ++ unmarked b := by
+  simp [unmarked]
+
+theorem ixr_save_inv (s : Ixr) : unmarked s.save.reset.saved ++ s.save.reset.file = unmarked s.saved ++ s.file := by
+  unfold Ixr.save
+  split
+  · rename_i h
+    simp [Ixr.reset, List.isEmpty_iff.mp h]
+  · simp [Ixr.reset, unmarked_append, unmarked]
+
+theorem ixr_add_inv (mc : Nat) (s : Ixr) (p : IndexPack) (aged : Bool) :
+    unmarked (s.add mc p aged).saved ++ (s.add mc p aged).file = unmarked s.saved ++ s.file ++ [p] := by
+  unfold Ixr.add
+  simp only
+  split
+  · rw [ixr_save_inv]; simp
+  · simp
+
+theorem ixr_fold_inv (mc : Nat) (adds : List (IndexPack × Bool)) (s : Ixr) :
+    unmarked (adds.foldl (fun (s : Ixr) a => s.add mc a.1 a.2) s).saved ++ (adds.foldl (fun (s : Ixr) a => s.add mc a.1 a.2) s).file =
+      unmarked s.saved ++ s.file ++ adds.map (·.1) := by
+  induction adds generalizing s with
+  | nil => simp
+  | cons a as ih => simp only [List.foldl_cons, List.map_cons]; rw [ih, ixr_add_inv]; simp
+
+/-- **The index files of a run list exactly the packs handed to the indexer, in order** — for every flush threshold and
+every schedule of age-triggered flushes. -/
+theorem ixr_run_unmarked (mc : Nat) (adds : List (IndexPack × Bool)) :
+    unmarked (Ixr.run mc adds).saved = adds.map (·.1) := by
+  unfold Ixr.run
+  have h := ixr_fold_inv mc adds {}
+  have h2 := ixr_save_inv (adds.foldl (fun (s : Ixr) a => s.add mc a.1 a.2) {})
+  simp only [Ixr.reset, List.append_nil] at h2
+  rw [h2, h]
+  simp [unmarked]
+
 end Rustic.Store
